@@ -143,15 +143,26 @@ def main(tier):
                     pairs.add((a, bb))
                     pairs.add((bb, a))
         nrun = 0
-        for a, bb in sorted(pairs):
-            p = core.run([ddiff, iso(a), iso(bb), "-f", "%rS"], timeout=20)
-            nrun += 1
-            try:
-                rv = int(p.stdout.strip())
-            except ValueError:
-                rv = 2 ** 31 - 1
-            ev.append({"e": "RDiff", "a": ds(a), "b": ds(bb), "dd": bb // 86400 - a // 86400, "ds": bb % 86400 - a % 86400, "r": rv,
-                       "A": iso(a), "B": iso(bb)})
+        def ymcw(t):
+            import datetime
+            x = datetime.datetime(1970, 1, 1) + datetime.timedelta(seconds=t)
+            return "%04d-%02d-%02d-%02dT%s" % (x.year, x.month, (x.day - 1) // 7 + 1, x.isoweekday(), x.strftime("%H:%M:%S"))
+        for pi, (a, bb) in enumerate(sorted(pairs)):
+            # the table is consulted per notation of the operands (ymd, n-th weekday, seconds since the epoch): all three must agree
+            variants = [("", [iso(a), iso(bb)])]
+            if pi % 3 == 1 or not quick:
+                variants.append((" -i %s", ["-i", "%s", str(a), str(bb)]))
+            if pi % 3 == 2 or not quick:
+                variants.append((" (ymcw)", ["-i", "%Y-%m-%c-%wT%T", ymcw(a), ymcw(bb)]))
+            for tag, args in variants:
+                p = core.run([ddiff] + args + ["-f", "%rS"], timeout=20)
+                nrun += 1
+                try:
+                    rv = int(p.stdout.strip())
+                except ValueError:
+                    rv = 2 ** 31 - 1
+                ev.append({"e": "RDiff", "a": ds(a), "b": ds(bb), "dd": bb // 86400 - a // 86400, "ds": bb % 86400 - a % 86400, "r": rv,
+                           "A": args[-2], "B": args[-1], "nota": tag})
         # beyond 2^31 seconds: known finding class, one probe
         p = core.run([ddiff, "1971-01-01T00:00:00", "2100-01-01T00:00:00", "-f", "%rS"], timeout=20)
         if p.stdout.strip() != "4070908827":
@@ -176,7 +187,7 @@ def main(tier):
             if bad["e"] in ("Tai", "Gps"):
                 key += " after-2038" if bad["t"][0] * 86400 + bad["t"][1] > 2 ** 31 - 1 else " table-range"
             elif bad["e"] == "RDiff":
-                key += " backwards" if (bad["dd"], bad["ds"]) < (0, 0) else " forwards"
+                key += (" backwards" if (bad["dd"], bad["ds"]) < (0, 0) else " forwards") + bad.get("nota", "")
             rep.disagree(key, {"rejected_event": bad})
         rep.sample({"events": ev[:2] + ev[-2:]})
         compiler_section(rep, b, quick)
@@ -212,10 +223,15 @@ def _columns(raw, dec):
            "d": [["hi", 0] if x == 2 ** 32 - 1 else ["v", x] for x in word("leaps_d")],
            "s": [["lo", 0] if x == -2 ** 31 else ["hi", 0] if x == 2 ** 31 - 1 else ["v", x] for x in word("leaps_s")]}
     for name, cmd in (("ymd", "Y"), ("ymcw", "C")):
-        col = []
+        col, words = [], []
         for x in word("leaps_" + name):
             col.append(["z", 0] if x == 0 else ["hi", 0] if x == 2 ** 32 - 1 else ["v"] + dec("%s %x" % (cmd, x)))
+            # consumers compare whole words: the key must be, bit for bit, the word the library forms when it reads that day
+            f = col[-1][1:]
+            canon = dec("P%s %s" % (cmd, "%04d-%02d-%02d" % tuple(f) if name == "ymd" else "%04d-%02d-%02d-%02d" % tuple(f))) if col[-1][0] == "v" and len(f) == (3 if name == "ymd" else 4) else "-"
+            words.append(["%x" % x, canon if isinstance(canon, str) else "?"])
         out[name] = col
+        out[name + "w"] = words
     out["hms"] = [["hi", 0] if x == 2 ** 32 - 1 else ["t"] + dec("H %x" % x) for x in word("leaps_hms")]
     return out
 
@@ -239,7 +255,7 @@ def compiler_section(rep, b, quick):
 
     def dec(cmd):
         got = drv.cmd(cmd)
-        return got if isinstance(got, list) else [-9]
+        return got if isinstance(got, (list, str)) else [-9]
     d = tempfile.mkdtemp(prefix="verif-ltr.", dir="/var/tmp")
     ev = []
     try:
